@@ -249,7 +249,7 @@ fn build_type(
     let associated_functions_impl = associated_functions
         .iter()
         .filter(|f| !f.is_internal())
-        .map(build_function)
+        .map(|f| build_function(f, regions))
         .collect::<anyhow::Result<Vec<_>>>()?;
 
     let vftable_function_impl = vftable
@@ -258,7 +258,7 @@ fn build_type(
             v.functions
                 .iter()
                 .filter(|f| !f.is_internal())
-                .map(build_function)
+                .map(|f| build_function(f, regions))
                 .collect::<anyhow::Result<Vec<_>>>()
         })
         .transpose()?
@@ -494,7 +494,10 @@ fn build_enum(
     })
 }
 
-fn build_function(function: &Function) -> Result<proc_macro2::TokenStream, anyhow::Error> {
+fn build_function(
+    function: &Function,
+    regions: &[Region],
+) -> Result<proc_macro2::TokenStream, anyhow::Error> {
     let name = str_to_ident(&function.name);
     let doc = doc_to_tokens(false, function.doc.as_deref());
 
@@ -588,8 +591,22 @@ fn build_function(function: &Function) -> Result<proc_macro2::TokenStream, anyho
         } => {
             let field_ident = str_to_ident(field);
             let function_to_call_name = str_to_ident(function_name);
-            quote! {
-                self.#field_ident.#function_to_call_name(#(#call_arguments),*)
+            if function.arguments.iter().any(|a| a.is_self()) {
+                quote! {
+                    self.#field_ident.#function_to_call_name(#(#call_arguments),*)
+                }
+            } else {
+                // there is no `self` to go through: call the function of the field's type
+                let field_type = regions
+                    .iter()
+                    .find(|r| r.name.as_deref() == Some(field.as_str()))
+                    .with_context(|| {
+                        format!("failed to find field `{field}` for function `{}`", function.name)
+                    })?;
+                let field_type = sa_type_to_syn_type(&field_type.type_ref)?;
+                quote! {
+                    <#field_type>::#function_to_call_name(#(#call_arguments),*)
+                }
             }
         }
         FunctionBody::Vftable { function_name } => {
